@@ -46,7 +46,8 @@ func c14Bare(c *rt.C) {
 				sts.IsLocal(true) // exercise the local-statistics + Merge path as nitro's writers do
 				for i := 0; i < 200; i++ {
 					itm := e.intItem(lr.Intn(nKeys))
-					if lr.Intn(2) == 0 {
+					// phase 0 only inserts: the structure is walked before any delete touches the new nodes
+					if ph == 0 || lr.Intn(2) == 0 {
 						if forced {
 							s.Insert3(itm, skiplist.CompareInt, nil, buf, lr.Intn(9), false, &sts)
 						} else {
